@@ -415,11 +415,14 @@ class SparseArray:
             # groups that store every element need no correction (and must not get one:
             # a non-finite fill value times zero missing elements is NaN)
             missing_counts = counts != n_cols
+            # the correction is computed in the accumulation dtype of the reduction
+            # (NumPy accumulates narrow integers in the platform integer), not in the data dtype
+            fill_value = data.dtype.type(self.fill_value)
             data[missing_counts] = method(
                 data[missing_counts],
-                reduce_super_ufunc(self.fill_value, (n_cols - counts)[missing_counts]),
+                reduce_super_ufunc(fill_value, (n_cols - counts)[missing_counts]),
             ).astype(data.dtype)
-            result_fill_value = reduce_super_ufunc(self.fill_value, n_cols)
+            result_fill_value = reduce_super_ufunc(fill_value, n_cols)
 
         out = self._reduce_return(data, arr_attrs, result_fill_value)
 
